@@ -1964,10 +1964,16 @@ class Type_Declaration_StmtBase(StmtBase):
                     return
                 i = m.start() + len(line) - len(line[6:].lstrip())
             else:
-                m = re.search(r"\s[a-z_]", line, re.I)
+                # Look for the white space that ends the type-spec, skipping
+                # any blanks inside its parentheses (e.g. 'TYPE( name ) x').
+                offset = 0
+                paren = re.match(r"\s*[a-z]+\s*\(", line, re.I)
+                if paren:
+                    offset = max(line.find(")", paren.end()), 0)
+                m = re.search(r"\s[a-z_]", line[offset:], re.I)
                 if m is None:
                     return
-                i = m.start()
+                i = m.start() + offset
         type_spec = decl_type_spec_cls(repmap(line[:i].rstrip()))
         if type_spec is None:
             return
